@@ -201,11 +201,29 @@ pub fn log_records_seen() -> u64 {
 // stdout capture (fd 1 -> memfd)
 
 static mut CAP_FD: i32 = -1;
+static mut REAL_STDOUT: i32 = -1;
+
+/// give fd 1 back to the process's real standard output (the parent process captures only
+/// while it re-judges fuzzing inputs; its verdict lines must reach the caller)
+pub fn capture_release() {
+    let _ = std::io::stdout().flush();
+    unsafe {
+        if CAP_FD >= 0 && REAL_STDOUT >= 0 {
+            libc::dup2(REAL_STDOUT, 1);
+            libc::close(CAP_FD);
+            CAP_FD = -1;
+        }
+    }
+}
 
 pub fn capture_init() {
     unsafe {
         if CAP_FD >= 0 {
             return;
+        }
+        if REAL_STDOUT < 0 {
+            let _ = std::io::stdout().flush();
+            REAL_STDOUT = libc::dup(1);
         }
         let name = b"mverif-stdout\0";
         let fd = libc::memfd_create(name.as_ptr() as *const libc::c_char, 0);
